@@ -185,13 +185,15 @@ class _MemoryFile(io.RawIOBase):
         with self._seek_lock():
             self.on_modify()
             pos = self._bytes_io.tell()
+            if size is None:
+                # like io.FileIO, truncate() means truncate(tell())
+                size = pos
             new_size = self._bytes_io.truncate(size)
-            if size is not None:
-                file_size = self._bytes_io.seek(0, os.SEEK_END)
-                if file_size < size:
-                    self._bytes_io.write(b"\0" * (size - file_size))
-                # truncating never moves the file position
-                self._bytes_io.seek(pos)
+            file_size = self._bytes_io.seek(0, os.SEEK_END)
+            if file_size < size:
+                self._bytes_io.write(b"\0" * (size - file_size))
+            # truncating never moves the file position
+            self._bytes_io.seek(pos)
             return size or new_size
 
     def writable(self):
